@@ -36,6 +36,10 @@ package document
 //@ ensures err == nil && !keepTogether ==> t.Rows[rowIndex].Properties.CantSplit == nil
 //@ ensures err == nil ==> t.Rows[rowIndex].Properties.TblHeader == old(ite(t.Rows[rowIndex].Properties == nil, nil, t.Rows[rowIndex].Properties.TblHeader)) && t.Rows[rowIndex].Properties.TableRowH == old(ite(t.Rows[rowIndex].Properties == nil, nil, t.Rows[rowIndex].Properties.TableRowH))
 //@ ensures err == nil ==> forall r int :: 0 <= r && r < len(t.Rows) && r != rowIndex ==> t.Rows[r].Properties == old(t.Rows[r].Properties) && (t.Rows[r].Properties != nil ==> t.Rows[r].Properties.CantSplit == old(t.Rows[r].Properties.CantSplit))
+//@ ensures err == nil && old(rowsOwn(t)) ==> rowsOwn(t)
+//@ ensures err == nil && old(cellPropsOwn(t)) ==> cellPropsOwn(t)
+//@ ensures err == nil && old(cellParasOwn(t)) ==> cellParasOwn(t)
+//@ ensures err == nil && old(paraRunsOwn(t)) ==> paraRunsOwn(t)
 
 //@ func (*Table).SetRowAsHeader
 //@ props C09
@@ -49,6 +53,10 @@ package document
 //@ ensures err == nil && !isHeader ==> t.Rows[rowIndex].Properties.TblHeader == nil
 //@ ensures err == nil ==> t.Rows[rowIndex].Properties.CantSplit == old(ite(t.Rows[rowIndex].Properties == nil, nil, t.Rows[rowIndex].Properties.CantSplit)) && t.Rows[rowIndex].Properties.TableRowH == old(ite(t.Rows[rowIndex].Properties == nil, nil, t.Rows[rowIndex].Properties.TableRowH))
 //@ ensures err == nil ==> forall r int :: 0 <= r && r < len(t.Rows) && r != rowIndex ==> t.Rows[r].Properties == old(t.Rows[r].Properties) && (t.Rows[r].Properties != nil ==> t.Rows[r].Properties.TblHeader == old(t.Rows[r].Properties.TblHeader))
+//@ ensures err == nil && old(rowsOwn(t)) ==> rowsOwn(t)
+//@ ensures err == nil && old(cellPropsOwn(t)) ==> cellPropsOwn(t)
+//@ ensures err == nil && old(cellParasOwn(t)) ==> cellParasOwn(t)
+//@ ensures err == nil && old(paraRunsOwn(t)) ==> paraRunsOwn(t)
 
 //@ func (*Table).SetRowHeight
 //@ props C09
@@ -61,6 +69,10 @@ package document
 //@ ensures err == nil ==> t.Rows[rowIndex].Properties.TableRowH != nil && fresh(t.Rows[rowIndex].Properties.TableRowH) && t.Rows[rowIndex].Properties.TableRowH.Val == itoa(config.Height * 20) && t.Rows[rowIndex].Properties.TableRowH.HRule == string(config.Rule)
 //@ ensures err == nil ==> t.Rows[rowIndex].Properties.CantSplit == old(ite(t.Rows[rowIndex].Properties == nil, nil, t.Rows[rowIndex].Properties.CantSplit)) && t.Rows[rowIndex].Properties.TblHeader == old(ite(t.Rows[rowIndex].Properties == nil, nil, t.Rows[rowIndex].Properties.TblHeader))
 //@ ensures err == nil ==> forall r int :: 0 <= r && r < len(t.Rows) && r != rowIndex ==> t.Rows[r].Properties == old(t.Rows[r].Properties) && (t.Rows[r].Properties != nil ==> t.Rows[r].Properties.TableRowH == old(t.Rows[r].Properties.TableRowH))
+//@ ensures err == nil && old(rowsOwn(t)) ==> rowsOwn(t)
+//@ ensures err == nil && old(cellPropsOwn(t)) ==> cellPropsOwn(t)
+//@ ensures err == nil && old(cellParasOwn(t)) ==> cellParasOwn(t)
+//@ ensures err == nil && old(paraRunsOwn(t)) ==> paraRunsOwn(t)
 
 //@ func (*Table).SetHeaderRows
 //@ props C09
@@ -71,6 +83,10 @@ package document
 //@ ensures err == nil ==> rowPropsOwn(t)
 //@ ensures err == nil ==> forall r int :: startRow <= r && r <= endRow ==> t.Rows[r].Properties != nil && t.Rows[r].Properties.TblHeader != nil && t.Rows[r].Properties.TblHeader.Val == "1" && (old(t.Rows[r].Properties) != nil ==> t.Rows[r].Properties == old(t.Rows[r].Properties))
 //@ ensures err == nil ==> forall r int :: 0 <= r && r < len(t.Rows) && (r < startRow || r > endRow) ==> t.Rows[r].Properties == old(t.Rows[r].Properties) && (t.Rows[r].Properties != nil ==> t.Rows[r].Properties.TblHeader == nil)
+//@ ensures err == nil && old(rowsOwn(t)) ==> rowsOwn(t)
+//@ ensures err == nil && old(cellPropsOwn(t)) ==> cellPropsOwn(t)
+//@ ensures err == nil && old(cellParasOwn(t)) ==> cellParasOwn(t)
+//@ ensures err == nil && old(paraRunsOwn(t)) ==> paraRunsOwn(t)
 //@ loop 1
 //@   invariant 0 <= #i && #i <= len(t.Rows)
 //@   invariant unchangedExcept("TableRowProperties.TblHeader")
@@ -104,6 +120,11 @@ package document
 //@ ensures err != nil ==> unchangedHeap()
 //@ ensures err == nil ==> len(t.Rows[row].Cells[col].Paragraphs) == 1 && freshArr(t.Rows[row].Cells[col].Paragraphs) && len(t.Rows[row].Cells[col].Paragraphs[0].Runs) == 1 && freshArr(t.Rows[row].Cells[col].Paragraphs[0].Runs) && t.Rows[row].Cells[col].Paragraphs[0].Runs[0].Text.Content == ""
 //@ ensures err == nil ==> forall r int, c int :: 0 <= r && r < len(t.Rows) && 0 <= c && c < len(t.Rows[r].Cells) && (r != row || c != col) ==> t.Rows[r].Cells[c].Paragraphs == old(t.Rows[r].Cells[c].Paragraphs)
+//@ ensures err == nil ==> rowsOwn(t)
+//@ ensures err == nil && old(cellPropsOwn(t)) ==> cellPropsOwn(t)
+//@ ensures err == nil && old(rowPropsOwn(t)) ==> rowPropsOwn(t)
+//@ ensures err == nil && old(cellParasOwn(t)) ==> cellParasOwn(t)
+//@ ensures err == nil && old(cellParasOwn(t)) && old(paraRunsOwn(t)) ==> paraRunsOwn(t)
 
 //@ func (*Table).AddCellParagraph
 //@ props C09
@@ -118,6 +139,10 @@ package document
 //@ ensures err == nil ==> forall r int, c int :: 0 <= r && r < len(t.Rows) && 0 <= c && c < len(t.Rows[r].Cells) && (r != row || c != col) ==> t.Rows[r].Cells[c].Paragraphs == old(t.Rows[r].Cells[c].Paragraphs)
 //@ ensures err == nil ==> forall r int, c int, k int :: 0 <= r && r < len(t.Rows) && 0 <= c && c < len(t.Rows[r].Cells) && (r != row || c != col) && 0 <= k && k < len(t.Rows[r].Cells[c].Paragraphs) ==> t.Rows[r].Cells[c].Paragraphs[k] == old(t.Rows[r].Cells[c].Paragraphs[k])
 //@ ensures err == nil ==> cellParasOwn(t)
+//@ ensures err == nil ==> rowsOwn(t)
+//@ ensures err == nil && old(cellPropsOwn(t)) ==> cellPropsOwn(t)
+//@ ensures err == nil && old(rowPropsOwn(t)) ==> rowPropsOwn(t)
+//@ ensures err == nil && old(paraRunsOwn(t)) && (forall k int :: 0 <= k && k < old(len(t.Rows[row].Cells[col].Paragraphs)) ==> t.Rows[row].Cells[col].Paragraphs[k] == old(t.Rows[row].Cells[col].Paragraphs[k])) && (forall r int, c int, k int :: 0 <= r && r < len(t.Rows) && 0 <= c && c < len(t.Rows[r].Cells) && (r != row || c != col) && 0 <= k && k < len(t.Rows[r].Cells[c].Paragraphs) ==> t.Rows[r].Cells[c].Paragraphs[k] == old(t.Rows[r].Cells[c].Paragraphs[k])) ==> paraRunsOwn(t)
 
 // Text model of a cell, as left folds (the shape GetCellText computes): the runs of each paragraph
 // concatenated, paragraphs separated (not terminated) by "\n".
@@ -202,6 +227,11 @@ package document
 //@ ensures err != nil ==> unchangedHeap()
 //@ ensures err == nil ==> forall k int, j int :: 0 <= k && k < len(t.Rows[row].Cells[col].Paragraphs) && 0 <= j && j < len(t.Rows[row].Cells[col].Paragraphs[k].Runs) ==> t.Rows[row].Cells[col].Paragraphs[k].Runs[j].Text.Content == ""
 //@ ensures err == nil ==> forall r int, c int, k int, j int :: 0 <= r && r < len(t.Rows) && 0 <= c && c < len(t.Rows[r].Cells) && (r != row || c != col) && 0 <= k && k < len(t.Rows[r].Cells[c].Paragraphs) && 0 <= j && j < len(t.Rows[r].Cells[c].Paragraphs[k].Runs) ==> t.Rows[r].Cells[c].Paragraphs[k].Runs[j].Text.Content == old(t.Rows[r].Cells[c].Paragraphs[k].Runs[j].Text.Content)
+//@ ensures err == nil && old(rowsOwn(t)) ==> rowsOwn(t)
+//@ ensures err == nil && old(cellPropsOwn(t)) ==> cellPropsOwn(t)
+//@ ensures err == nil && old(rowPropsOwn(t)) ==> rowPropsOwn(t)
+//@ ensures err == nil && old(cellParasOwn(t)) ==> cellParasOwn(t)
+//@ ensures err == nil ==> paraRunsOwn(t)
 //@ loop 1
 //@   invariant 0 <= #i && #i <= len(cell.Paragraphs) && unchangedExcept("Run.Text.Content")
 //@   invariant forall k int, j int :: 0 <= k && k < #i && 0 <= j && j < len(cell.Paragraphs[k].Runs) ==> cell.Paragraphs[k].Runs[j].Text.Content == ""
@@ -228,6 +258,9 @@ package document
 //@ ensures err == nil ==> forall r int, c int :: 0 <= r && r < len(t.Rows) && 0 <= c && c < len(t.Rows[r].Cells) && (r != row || c != col) ==> t.Rows[r].Cells[c].Properties == old(t.Rows[r].Cells[c].Properties)
 //@ ensures err == nil ==> forall r int, c int, k int :: 0 <= r && r < len(t.Rows) && 0 <= c && c < len(t.Rows[r].Cells) && (r != row || c != col) && 0 <= k && k < len(t.Rows[r].Cells[c].Paragraphs) ==> t.Rows[r].Cells[c].Paragraphs[k].Properties == old(t.Rows[r].Cells[c].Paragraphs[k].Properties)
 //@ ensures err == nil ==> forall r int, c int, k int, j int :: 0 <= r && r < len(t.Rows) && 0 <= c && c < len(t.Rows[r].Cells) && (r != row || c != col) && 0 <= k && k < len(t.Rows[r].Cells[c].Paragraphs) && 0 <= j && j < len(t.Rows[r].Cells[c].Paragraphs[k].Runs) ==> t.Rows[r].Cells[c].Paragraphs[k].Runs[j].Properties == old(t.Rows[r].Cells[c].Paragraphs[k].Runs[j].Properties)
+//@ ensures err == nil ==> rowsOwn(t) && cellParasOwn(t) && paraRunsOwn(t)
+//@ ensures err == nil && old(cellPropsOwn(t)) ==> cellPropsOwn(t)
+//@ ensures err == nil && old(rowPropsOwn(t)) ==> rowPropsOwn(t)
 //@ loop 1
 //@   invariant 0 <= #i && #i <= len(cell.Paragraphs) && unchangedExcept("TableCell.Properties", "Paragraph.Properties", "Run.Properties")
 //@   invariant forall r int, c int :: 0 <= r && r < len(t.Rows) && 0 <= c && c < len(t.Rows[r].Cells) && (r != row || c != col) ==> t.Rows[r].Cells[c].Properties == old(t.Rows[r].Cells[c].Properties)
@@ -259,6 +292,9 @@ package document
 //@ ensures forall r int, c int :: 0 <= r && r < len(t.Rows) && 0 <= c && c < len(t.Rows[r].Cells) ==> len(t.Rows[r].Cells[c].Paragraphs) == 1 && freshArr(t.Rows[r].Cells[c].Paragraphs) && t.Rows[r].Cells[c].Paragraphs[0].Properties == nil && len(t.Rows[r].Cells[c].Paragraphs[0].Runs) == 1 && freshArr(t.Rows[r].Cells[c].Paragraphs[0].Runs) && t.Rows[r].Cells[c].Paragraphs[0].Runs[0].Text.Content == "" && t.Rows[r].Cells[c].Paragraphs[0].Runs[0].Properties == nil
 //@ ensures cellParasOwn(t)
 //@ ensures paraRunsOwn(t)
+//@ ensures rowsOwn(t)
+//@ ensures old(cellPropsOwn(t)) ==> cellPropsOwn(t)
+//@ ensures old(rowPropsOwn(t)) ==> rowPropsOwn(t)
 //@ loop 1
 //@   invariant 0 <= #i && #i <= len(t.Rows) && unchangedExcept("TableCell.Paragraphs")
 //@   invariant forall r int, c int :: 0 <= r && r < #i && 0 <= c && c < len(t.Rows[r].Cells) ==> len(t.Rows[r].Cells[c].Paragraphs) == 1 && freshArr(t.Rows[r].Cells[c].Paragraphs) && arr(t.Rows[r].Cells[c].Paragraphs) < allocBound() && t.Rows[r].Cells[c].Paragraphs[0].Properties == nil && len(t.Rows[r].Cells[c].Paragraphs[0].Runs) == 1 && freshArr(t.Rows[r].Cells[c].Paragraphs[0].Runs) && arr(t.Rows[r].Cells[c].Paragraphs[0].Runs) < allocBound() && t.Rows[r].Cells[c].Paragraphs[0].Runs[0].Text.Content == "" && t.Rows[r].Cells[c].Paragraphs[0].Runs[0].Properties == nil
@@ -292,6 +328,9 @@ package document
 //@ ensures err == nil && startRow == endRow && startCol == endCol ==> unchangedHeap()
 //@ ensures err == nil && startRow != endRow ==> t.Rows[startRow].Cells[startCol].Properties != nil && t.Rows[startRow].Cells[startCol].Properties.VMerge != nil && t.Rows[startRow].Cells[startCol].Properties.VMerge.Val == "restart"
 //@ ensures err == nil && startRow != endRow ==> forall r int :: startRow < r && r <= endRow ==> t.Rows[r].Cells[startCol].Properties != nil && t.Rows[r].Cells[startCol].Properties.VMerge != nil && t.Rows[r].Cells[startCol].Properties.VMerge.Val == "continue" && len(t.Rows[r].Cells[startCol].Paragraphs) == 1
+//@ ensures err == nil && old(rowPropsOwn(t)) ==> rowPropsOwn(t)
+//@ ensures err == nil && old(cellParasOwn(t)) ==> cellParasOwn(t)
+//@ ensures err == nil && old(paraRunsOwn(t)) ==> paraRunsOwn(t)
 //@ loop 1
 //@   invariant startRow <= i && i <= endRow + 1 && unchangedHeap()
 //@   invariant forall r int :: startRow <= r && r < i ==> endCol < len(t.Rows[r].Cells)
@@ -308,6 +347,9 @@ package document
 //@   invariant startRow == endRow ==> forall r int, c int :: startRow <= r && r < i && 0 <= c && c < startCol ==> t.Rows[r].Cells[c] == old(t.Rows[r].Cells[c])
 //@   invariant startRow == endRow ==> forall r int, c int :: startRow <= r && r < i && startCol < c && c < len(t.Rows[r].Cells) ==> t.Rows[r].Cells[c] == old(t.Rows[r].Cells[c + (endCol - startCol)])
 //@   invariant i == startRow + 1 && startCol != endCol ==> t.Rows[startRow].Cells[startCol].Properties != nil && t.Rows[startRow].Cells[startCol].Properties.GridSpan != nil && t.Rows[startRow].Cells[startCol].Properties.GridSpan.Val == itoa(endCol - startCol + 1) && t.Rows[startRow].Cells[startCol].Paragraphs == old(t.Rows[startRow].Cells[startCol].Paragraphs)
+//@   invariant old(rowPropsOwn(t)) ==> rowPropsOwn(t)
+//@   invariant old(cellParasOwn(t)) ==> cellParasOwn(t)
+//@   invariant old(paraRunsOwn(t)) ==> paraRunsOwn(t)
 //@   decreases endRow + 1 - i
 
 // spanOf: the grid span UnmergeCells reads from a cell's properties (fmt.Sscanf "%d", default 1).
@@ -332,6 +374,23 @@ package document
 //@ ensures err == nil ==> forall r int :: row < r && r < len(t.Rows) && col < len(t.Rows[r].Cells) ==> t.Rows[r].Cells[col].Properties == old(t.Rows[r].Cells[col].Properties) && t.Rows[r].Cells[col].Tables == old(t.Rows[r].Cells[col].Tables) && (t.Rows[r].Cells[col].Paragraphs == old(t.Rows[r].Cells[col].Paragraphs) || (old(len(t.Rows[r].Cells[col].Paragraphs)) == 0 && len(t.Rows[r].Cells[col].Paragraphs) == 1))
 //@ ensures err == nil ==> forall r int, c int :: 0 <= r && r < len(t.Rows) && r != row && 0 <= c && c < len(t.Rows[r].Cells) && (c != col || r < row) && t.Rows[r].Cells[c].Properties != nil ==> t.Rows[r].Cells[c].Properties.VMerge == old(t.Rows[r].Cells[c].Properties.VMerge)
 //@ ensures err == nil ==> forall r int :: row < r && r < len(t.Rows) && col < len(t.Rows[r].Cells) && t.Rows[r].Cells[col].Properties != nil ==> t.Rows[r].Cells[col].Properties.VMerge == nil || t.Rows[r].Cells[col].Properties.VMerge == old(t.Rows[r].Cells[col].Properties.VMerge)
+//@ ensures err == nil && old(rowPropsOwn(t)) ==> rowPropsOwn(t)
+//@ ensures err == nil ==> (forall k int :: {t.Rows[row].Cells[k]} {itoa(k)} col < k && k <= col + old(extraCells(t.Rows[row].Cells[col].Properties)) ==> atoi(itoa(k)) == k && fresh(t.Rows[row].Cells[k].Properties))
+//@ ensures err == nil ==> (forall k1 int, k2 int :: {t.Rows[row].Cells[k1], t.Rows[row].Cells[k2]} {itoa(k1), itoa(k2)} col < k1 && k1 < k2 && k2 <= col + old(extraCells(t.Rows[row].Cells[col].Properties)) ==> atoi(itoa(k1)) == k1 && atoi(itoa(k2)) == k2 && t.Rows[row].Cells[k1].Properties != t.Rows[row].Cells[k2].Properties)
+//@ ensures err == nil ==> (forall c int :: 0 <= c && c <= col ==> t.Rows[row].Cells[c].Properties == old(t.Rows[row].Cells[c].Properties))
+//@ ensures err == nil ==> (forall c int :: col + old(extraCells(t.Rows[row].Cells[col].Properties)) < c && c < len(t.Rows[row].Cells) ==> t.Rows[row].Cells[c].Properties == old(t.Rows[row].Cells[c - extraCells(t.Rows[row].Cells[col].Properties)].Properties))
+//@ ensures err == nil ==> (forall r int, c int :: 0 <= r && r < len(t.Rows) && r != row && 0 <= c && c < len(t.Rows[r].Cells) ==> t.Rows[r].Cells[c].Properties == old(t.Rows[r].Cells[c].Properties))
+//@ ensures err == nil && (forall k int :: {t.Rows[row].Cells[k]} {itoa(k)} col < k && k <= col + old(extraCells(t.Rows[row].Cells[col].Properties)) ==> atoi(itoa(k)) == k && fresh(t.Rows[row].Cells[k].Properties)) && (forall k1 int, k2 int :: {t.Rows[row].Cells[k1], t.Rows[row].Cells[k2]} {itoa(k1), itoa(k2)} col < k1 && k1 < k2 && k2 <= col + old(extraCells(t.Rows[row].Cells[col].Properties)) ==> atoi(itoa(k1)) == k1 && atoi(itoa(k2)) == k2 && t.Rows[row].Cells[k1].Properties != t.Rows[row].Cells[k2].Properties) && (forall c int :: 0 <= c && c <= col ==> t.Rows[row].Cells[c].Properties == old(t.Rows[row].Cells[c].Properties)) && (forall c int :: col + old(extraCells(t.Rows[row].Cells[col].Properties)) < c && c < len(t.Rows[row].Cells) ==> t.Rows[row].Cells[c].Properties == old(t.Rows[row].Cells[c - extraCells(t.Rows[row].Cells[col].Properties)].Properties)) && (forall r int, c int :: 0 <= r && r < len(t.Rows) && r != row && 0 <= c && c < len(t.Rows[r].Cells) ==> t.Rows[r].Cells[c].Properties == old(t.Rows[r].Cells[c].Properties)) ==> cellPropsOwn(t)
+//@ ensures err == nil ==> (forall k int :: {t.Rows[row].Cells[k]} {itoa(k)} col < k && k <= col + old(extraCells(t.Rows[row].Cells[col].Properties)) ==> atoi(itoa(k)) == k && len(t.Rows[row].Cells[k].Paragraphs) == 1 && arr(t.Rows[row].Cells[k].Paragraphs) >= old(allocBound()) && arr(t.Rows[row].Cells[k].Paragraphs[0].Runs) == 0)
+//@ ensures err == nil ==> (forall k1 int, k2 int :: {t.Rows[row].Cells[k1], t.Rows[row].Cells[k2]} {itoa(k1), itoa(k2)} col < k1 && k1 < k2 && k2 <= col + old(extraCells(t.Rows[row].Cells[col].Properties)) ==> atoi(itoa(k1)) == k1 && atoi(itoa(k2)) == k2 && arr(t.Rows[row].Cells[k1].Paragraphs) != arr(t.Rows[row].Cells[k2].Paragraphs))
+//@ ensures err == nil ==> (forall c int :: 0 <= c && c <= col ==> t.Rows[row].Cells[c].Paragraphs == old(t.Rows[row].Cells[c].Paragraphs))
+//@ ensures err == nil ==> (forall c int :: col + old(extraCells(t.Rows[row].Cells[col].Properties)) < c && c < len(t.Rows[row].Cells) ==> t.Rows[row].Cells[c].Paragraphs == old(t.Rows[row].Cells[c - extraCells(t.Rows[row].Cells[col].Properties)].Paragraphs))
+//@ ensures err == nil ==> (forall r int, c int :: 0 <= r && r < len(t.Rows) && r != row && 0 <= c && c < len(t.Rows[r].Cells) && (c != col || r < row) ==> t.Rows[r].Cells[c].Paragraphs == old(t.Rows[r].Cells[c].Paragraphs))
+//@ ensures err == nil ==> (forall r int :: {t.Rows[r]} row < r && r < len(t.Rows) && col < len(t.Rows[r].Cells) ==> t.Rows[r].Cells[col].Paragraphs == old(t.Rows[r].Cells[col].Paragraphs) || (old(len(t.Rows[r].Cells[col].Paragraphs)) == 0 && len(t.Rows[r].Cells[col].Paragraphs) == 1 && arr(t.Rows[r].Cells[col].Paragraphs) >= old(allocBound()) && arr(t.Rows[r].Cells[col].Paragraphs[0].Runs) == 0))
+//@ ensures err == nil ==> (forall r1 int, r2 int :: {t.Rows[r1], t.Rows[r2]} row < r1 && r1 < r2 && r2 < len(t.Rows) && col < len(t.Rows[r1].Cells) && col < len(t.Rows[r2].Cells) && t.Rows[r1].Cells[col].Paragraphs != old(t.Rows[r1].Cells[col].Paragraphs) && t.Rows[r2].Cells[col].Paragraphs != old(t.Rows[r2].Cells[col].Paragraphs) ==> arr(t.Rows[r1].Cells[col].Paragraphs) != arr(t.Rows[r2].Cells[col].Paragraphs))
+//@ ensures err == nil ==> (forall r int, k int :: {t.Rows[r], t.Rows[row].Cells[k]} row < r && r < len(t.Rows) && col < len(t.Rows[r].Cells) && t.Rows[r].Cells[col].Paragraphs != old(t.Rows[r].Cells[col].Paragraphs) && col < k && k <= col + old(extraCells(t.Rows[row].Cells[col].Properties)) ==> arr(t.Rows[r].Cells[col].Paragraphs) != arr(t.Rows[row].Cells[k].Paragraphs))
+//@ ensures err == nil && old(cellParasOwn(t)) && (forall k int :: {t.Rows[row].Cells[k]} {itoa(k)} col < k && k <= col + old(extraCells(t.Rows[row].Cells[col].Properties)) ==> atoi(itoa(k)) == k && len(t.Rows[row].Cells[k].Paragraphs) == 1 && arr(t.Rows[row].Cells[k].Paragraphs) >= old(allocBound()) && arr(t.Rows[row].Cells[k].Paragraphs[0].Runs) == 0) && (forall k1 int, k2 int :: {t.Rows[row].Cells[k1], t.Rows[row].Cells[k2]} {itoa(k1), itoa(k2)} col < k1 && k1 < k2 && k2 <= col + old(extraCells(t.Rows[row].Cells[col].Properties)) ==> atoi(itoa(k1)) == k1 && atoi(itoa(k2)) == k2 && arr(t.Rows[row].Cells[k1].Paragraphs) != arr(t.Rows[row].Cells[k2].Paragraphs)) && (forall c int :: 0 <= c && c <= col ==> t.Rows[row].Cells[c].Paragraphs == old(t.Rows[row].Cells[c].Paragraphs)) && (forall c int :: col + old(extraCells(t.Rows[row].Cells[col].Properties)) < c && c < len(t.Rows[row].Cells) ==> t.Rows[row].Cells[c].Paragraphs == old(t.Rows[row].Cells[c - extraCells(t.Rows[row].Cells[col].Properties)].Paragraphs)) && (forall r int, c int :: 0 <= r && r < len(t.Rows) && r != row && 0 <= c && c < len(t.Rows[r].Cells) && (c != col || r < row) ==> t.Rows[r].Cells[c].Paragraphs == old(t.Rows[r].Cells[c].Paragraphs)) && (forall r int :: {t.Rows[r]} row < r && r < len(t.Rows) && col < len(t.Rows[r].Cells) ==> t.Rows[r].Cells[col].Paragraphs == old(t.Rows[r].Cells[col].Paragraphs) || (old(len(t.Rows[r].Cells[col].Paragraphs)) == 0 && len(t.Rows[r].Cells[col].Paragraphs) == 1 && arr(t.Rows[r].Cells[col].Paragraphs) >= old(allocBound()) && arr(t.Rows[r].Cells[col].Paragraphs[0].Runs) == 0)) && (forall r1 int, r2 int :: {t.Rows[r1], t.Rows[r2]} row < r1 && r1 < r2 && r2 < len(t.Rows) && col < len(t.Rows[r1].Cells) && col < len(t.Rows[r2].Cells) && t.Rows[r1].Cells[col].Paragraphs != old(t.Rows[r1].Cells[col].Paragraphs) && t.Rows[r2].Cells[col].Paragraphs != old(t.Rows[r2].Cells[col].Paragraphs) ==> arr(t.Rows[r1].Cells[col].Paragraphs) != arr(t.Rows[r2].Cells[col].Paragraphs)) && (forall r int, k int :: {t.Rows[r], t.Rows[row].Cells[k]} row < r && r < len(t.Rows) && col < len(t.Rows[r].Cells) && t.Rows[r].Cells[col].Paragraphs != old(t.Rows[r].Cells[col].Paragraphs) && col < k && k <= col + old(extraCells(t.Rows[row].Cells[col].Properties)) ==> arr(t.Rows[r].Cells[col].Paragraphs) != arr(t.Rows[row].Cells[k].Paragraphs)) && (forall r int :: 0 <= r && r < len(t.Rows) && r != row ==> t.Rows[r].Cells == old(t.Rows[r].Cells)) ==> cellParasOwn(t)
+//@ ensures err == nil && old(cellParasOwn(t)) && old(paraRunsOwn(t)) && (forall k int :: {t.Rows[row].Cells[k]} {itoa(k)} col < k && k <= col + old(extraCells(t.Rows[row].Cells[col].Properties)) ==> atoi(itoa(k)) == k && len(t.Rows[row].Cells[k].Paragraphs) == 1 && arr(t.Rows[row].Cells[k].Paragraphs) >= old(allocBound()) && arr(t.Rows[row].Cells[k].Paragraphs[0].Runs) == 0) && (forall k1 int, k2 int :: {t.Rows[row].Cells[k1], t.Rows[row].Cells[k2]} {itoa(k1), itoa(k2)} col < k1 && k1 < k2 && k2 <= col + old(extraCells(t.Rows[row].Cells[col].Properties)) ==> atoi(itoa(k1)) == k1 && atoi(itoa(k2)) == k2 && arr(t.Rows[row].Cells[k1].Paragraphs) != arr(t.Rows[row].Cells[k2].Paragraphs)) && (forall c int :: 0 <= c && c <= col ==> t.Rows[row].Cells[c].Paragraphs == old(t.Rows[row].Cells[c].Paragraphs)) && (forall c int :: col + old(extraCells(t.Rows[row].Cells[col].Properties)) < c && c < len(t.Rows[row].Cells) ==> t.Rows[row].Cells[c].Paragraphs == old(t.Rows[row].Cells[c - extraCells(t.Rows[row].Cells[col].Properties)].Paragraphs)) && (forall r int, c int :: 0 <= r && r < len(t.Rows) && r != row && 0 <= c && c < len(t.Rows[r].Cells) && (c != col || r < row) ==> t.Rows[r].Cells[c].Paragraphs == old(t.Rows[r].Cells[c].Paragraphs)) && (forall r int :: {t.Rows[r]} row < r && r < len(t.Rows) && col < len(t.Rows[r].Cells) ==> t.Rows[r].Cells[col].Paragraphs == old(t.Rows[r].Cells[col].Paragraphs) || (old(len(t.Rows[r].Cells[col].Paragraphs)) == 0 && len(t.Rows[r].Cells[col].Paragraphs) == 1 && arr(t.Rows[r].Cells[col].Paragraphs) >= old(allocBound()) && arr(t.Rows[r].Cells[col].Paragraphs[0].Runs) == 0)) && (forall r1 int, r2 int :: {t.Rows[r1], t.Rows[r2]} row < r1 && r1 < r2 && r2 < len(t.Rows) && col < len(t.Rows[r1].Cells) && col < len(t.Rows[r2].Cells) && t.Rows[r1].Cells[col].Paragraphs != old(t.Rows[r1].Cells[col].Paragraphs) && t.Rows[r2].Cells[col].Paragraphs != old(t.Rows[r2].Cells[col].Paragraphs) ==> arr(t.Rows[r1].Cells[col].Paragraphs) != arr(t.Rows[r2].Cells[col].Paragraphs)) && (forall r int, k int :: {t.Rows[r], t.Rows[row].Cells[k]} row < r && r < len(t.Rows) && col < len(t.Rows[r].Cells) && t.Rows[r].Cells[col].Paragraphs != old(t.Rows[r].Cells[col].Paragraphs) && col < k && k <= col + old(extraCells(t.Rows[row].Cells[col].Properties)) ==> arr(t.Rows[r].Cells[col].Paragraphs) != arr(t.Rows[row].Cells[k].Paragraphs)) && (forall r int :: 0 <= r && r < len(t.Rows) && r != row ==> t.Rows[r].Cells == old(t.Rows[r].Cells)) ==> paraRunsOwn(t)
 //@ loop 1
 //@   invariant 1 <= i && (i <= old(spanOf(t.Rows[row].Cells[col].Properties)) || i == 1)
 //@   invariant 0 <= row && row < len(t.Rows) && 0 <= col && col < old(len(t.Rows[row].Cells))
@@ -348,6 +407,11 @@ package document
 //@   invariant forall c0 int :: {old(t.Rows[row].Cells[c0].Properties)} col < c0 && c0 < old(len(t.Rows[row].Cells)) ==> t.Rows[row].Cells[c0 + (i - 1)].Properties == old(t.Rows[row].Cells[c0].Properties)
 //@   invariant t.Rows[row].Cells[col].Paragraphs == old(t.Rows[row].Cells[col].Paragraphs)
 //@   invariant forall c0 int :: {old(t.Rows[row].Cells[c0].Paragraphs)} col < c0 && c0 < old(len(t.Rows[row].Cells)) ==> t.Rows[row].Cells[c0 + (i - 1)].Paragraphs == old(t.Rows[row].Cells[c0].Paragraphs)
+//@   invariant forall k int :: {itoa(k)} col < k && k < col + i ==> atoi(itoa(k)) == k && fresh(t.Rows[row].Cells[k].Properties) && live(t.Rows[row].Cells[k].Properties)
+//@   invariant forall k1 int, k2 int :: {itoa(k1), itoa(k2)} col < k1 && k1 < k2 && k2 < col + i ==> atoi(itoa(k1)) == k1 && atoi(itoa(k2)) == k2 && t.Rows[row].Cells[k1].Properties != t.Rows[row].Cells[k2].Properties
+//@   invariant forall c int :: {old(t.Rows[row].Cells[c].Paragraphs)} 0 <= c && c < col ==> t.Rows[row].Cells[c].Paragraphs == old(t.Rows[row].Cells[c].Paragraphs)
+//@   invariant forall k int :: {t.Rows[row].Cells[k]} {itoa(k)} col < k && k < col + i ==> atoi(itoa(k)) == k && len(t.Rows[row].Cells[k].Paragraphs) == 1 && arr(t.Rows[row].Cells[k].Paragraphs) >= old(allocBound()) && arr(t.Rows[row].Cells[k].Paragraphs) < allocBound() && arr(t.Rows[row].Cells[k].Paragraphs[0].Runs) == 0
+//@   invariant forall k1 int, k2 int :: {t.Rows[row].Cells[k1], t.Rows[row].Cells[k2]} {itoa(k1), itoa(k2)} col < k1 && k1 < k2 && k2 < col + i ==> atoi(itoa(k1)) == k1 && atoi(itoa(k2)) == k2 && arr(t.Rows[row].Cells[k1].Paragraphs) != arr(t.Rows[row].Cells[k2].Paragraphs)
 //@   decreases ite(old(spanOf(t.Rows[row].Cells[col].Properties)) > 1, old(spanOf(t.Rows[row].Cells[col].Properties)), 1) - i
 //@ loop 2
 //@   invariant row + 1 <= i && i <= len(t.Rows)
@@ -363,6 +427,12 @@ package document
 //@   invariant forall c0 int :: {old(t.Rows[row].Cells[c0].Properties)} col < c0 && c0 < old(len(t.Rows[row].Cells)) ==> t.Rows[row].Cells[c0 + old(extraCells(t.Rows[row].Cells[col].Properties))].Properties == old(t.Rows[row].Cells[c0].Properties)
 //@   invariant forall c0 int :: {old(t.Rows[row].Cells[c0].Paragraphs)} col < c0 && c0 < old(len(t.Rows[row].Cells)) ==> t.Rows[row].Cells[c0 + old(extraCells(t.Rows[row].Cells[col].Properties))].Paragraphs == old(t.Rows[row].Cells[c0].Paragraphs)
 //@   invariant t.Rows[row].Cells[col].Paragraphs == old(t.Rows[row].Cells[col].Paragraphs)
+//@   invariant forall c int :: {old(t.Rows[row].Cells[c].Paragraphs)} 0 <= c && c < col ==> t.Rows[row].Cells[c].Paragraphs == old(t.Rows[row].Cells[c].Paragraphs)
+//@   invariant forall k int :: {t.Rows[row].Cells[k]} {itoa(k)} col < k && k <= col + old(extraCells(t.Rows[row].Cells[col].Properties)) ==> atoi(itoa(k)) == k && len(t.Rows[row].Cells[k].Paragraphs) == 1 && arr(t.Rows[row].Cells[k].Paragraphs) >= old(allocBound()) && arr(t.Rows[row].Cells[k].Paragraphs) < allocBound() && arr(t.Rows[row].Cells[k].Paragraphs[0].Runs) == 0
+//@   invariant forall k1 int, k2 int :: {t.Rows[row].Cells[k1], t.Rows[row].Cells[k2]} {itoa(k1), itoa(k2)} col < k1 && k1 < k2 && k2 <= col + old(extraCells(t.Rows[row].Cells[col].Properties)) ==> atoi(itoa(k1)) == k1 && atoi(itoa(k2)) == k2 && arr(t.Rows[row].Cells[k1].Paragraphs) != arr(t.Rows[row].Cells[k2].Paragraphs)
+//@   invariant forall r1 int, r2 int :: {t.Rows[r1], t.Rows[r2]} row < r1 && r1 < r2 && r2 < i && col < len(t.Rows[r1].Cells) && col < len(t.Rows[r2].Cells) && t.Rows[r1].Cells[col].Paragraphs != old(t.Rows[r1].Cells[col].Paragraphs) && t.Rows[r2].Cells[col].Paragraphs != old(t.Rows[r2].Cells[col].Paragraphs) ==> arr(t.Rows[r1].Cells[col].Paragraphs) != arr(t.Rows[r2].Cells[col].Paragraphs)
+//@   invariant forall r int, k int :: {t.Rows[r], t.Rows[row].Cells[k]} row < r && r < i && col < len(t.Rows[r].Cells) && t.Rows[r].Cells[col].Paragraphs != old(t.Rows[r].Cells[col].Paragraphs) && col < k && k <= col + old(extraCells(t.Rows[row].Cells[col].Properties)) ==> arr(t.Rows[r].Cells[col].Paragraphs) != arr(t.Rows[row].Cells[k].Paragraphs)
+//@   invariant forall r int :: {t.Rows[r]} row < r && r < i && col < len(t.Rows[r].Cells) && t.Rows[r].Cells[col].Paragraphs != old(t.Rows[r].Cells[col].Paragraphs) ==> arr(t.Rows[r].Cells[col].Paragraphs) >= old(allocBound()) && arr(t.Rows[r].Cells[col].Paragraphs) < allocBound() && arr(t.Rows[r].Cells[col].Paragraphs[0].Runs) == 0
 //@   decreases len(t.Rows) - i
 
 // CopyTable delegates to (*TemplateEngine).cloneTable: the copy is structurally equal to the original and shares
